@@ -342,6 +342,86 @@ def _large_chunk(params, lo, hi):
     return r
 
 
+def deep_graphs():
+    """graphs deeper than the interpreter's recursion limit; strongly connected classes known in closed form:
+    (name, n, adjacency lists, classes as a list of node lists)"""
+    out = []
+    n = 5000
+    out.append(("path5000", n, [[i + 1] if i + 1 < n else [] for i in range(n)], [[i] for i in range(n)]))
+    n = 3000
+    out.append(("cycle3000", n, [[(i + 1) % n] for i in range(n)], [list(range(n))]))
+    k = 600  # a chain of 600 directed triangles, triangle t reaches triangle t+1
+    adj = [[] for _ in range(3 * k)]
+    for t in range(k):
+        a, b, c = 3 * t, 3 * t + 1, 3 * t + 2
+        adj[a].append(b)
+        adj[b].append(c)
+        adj[c].append(a)
+        if t + 1 < k:
+            adj[c].append(3 * t + 3)
+    out.append(("triangle_chain_1800", 3 * k, adj, [[3 * t, 3 * t + 1, 3 * t + 2] for t in range(k)]))
+    return out
+
+
+def _deep_chunk(params, lo, hi):
+    from solvor.scc import condense, strongly_connected_components, topological_sort
+    from solvor.types import Status
+
+    gs = deep_graphs()
+    r = new_result()
+    for idx in range(lo, hi):
+        name, n, adj, cls = gs[idx // 2]
+        order = list(range(n)) if idx % 2 == 0 else list(range(n - 1, -1, -1))
+        want = {frozenset(c) for c in cls}
+        comp_of = {x: frozenset(c) for c in cls for x in c}
+        acyclic = len(cls) == n
+        wit = {"deep": name, "reversed": idx % 2 == 1}
+        how = f"{name} ({n} nodes, {'descending' if idx % 2 else 'ascending'} node order)"
+
+        def judge_scc(res):
+            got = [frozenset(c) for c in res.solution]
+            if set(got) != want or len(got) != len(want):
+                return "partition differs from the closed form"
+            pos = {x: i for i, c in enumerate(got) for x in c}
+            for u in range(n):
+                for v in adj[u]:
+                    if pos[u] < pos[v]:
+                        return f"edge {u}->{v} goes from component #{pos[u]} to the later component #{pos[v]}"
+            return None
+
+        def judge_topo(res):
+            if not acyclic:
+                return None if res.status == Status.INFEASIBLE else f"graph has a cycle but status {res.status.name}"
+            if res.status != Status.OPTIMAL or sorted(res.solution) != list(range(n)):
+                return f"status {res.status.name}, not a permutation of the nodes"
+            pos = {x: i for i, x in enumerate(res.solution)}
+            bad = [(u, v) for u in range(n) for v in adj[u] if pos[u] >= pos[v]]
+            return f"edge {bad[0]} points backward" if bad else None
+
+        def judge_cond(res):
+            cnodes, cadj = res.solution
+            if set(cnodes) != want or len(cnodes) != len(want) or set(cadj.keys()) != want:
+                return "condensed nodes differ from the closed form"
+            wedges = {(comp_of[u], comp_of[v]) for u in range(n) for v in adj[u] if comp_of[u] != comp_of[v]}
+            gedges = {(a, b) for a, succ in cadj.items() for b in succ}
+            return None if gedges == wedges else f"{len(wedges - gedges)} condensation edges missing, {len(gedges - wedges)} extra"
+
+        for fname, fn, judge in (("strongly_connected_components", strongly_connected_components, judge_scc), ("topological_sort", topological_sort, judge_topo), ("condense", condense, judge_cond)):
+            r["n"] += 1
+            r["nontrivial"] += 1
+            try:
+                res = gcall(lambda: fn(list(order), lambda v: adj[v]))
+                msg = judge(res)
+            except Exception as ex:  # noqa: BLE001
+                r["outcomes"][f"deep:{fname}:raised"] += 1
+                r["violations"].append(viol(fname, "raised", dict(wit, function=fname), f"{fname} on {how}: {type(ex).__name__}: {str(ex)[:120]}"))
+                continue
+            r["outcomes"][f"deep:{fname}:{'wrong' if msg else 'ok'}"] += 1
+            if msg:
+                r["violations"].append(viol(fname, "wrong_on_deep_graph", dict(wit, function=fname), f"{fname} on {how}: {msg}"))
+    return r
+
+
 def _n5_block(params, lo, hi):
     off = params
     return _all_chunk((5, False, "two"), off + lo, off + hi)
@@ -349,6 +429,7 @@ def _n5_block(params, lo, hi):
 
 def jobs(tier, seed):
     js = []
+    js.append(Job("deep_closed_form", len(deep_graphs()) * 2, _deep_chunk, None, chunk=1, describe="a directed path of 5000 nodes, a cycle of 3000, a chain of 600 triangles: classes known in closed form, far deeper than the interpreter's recursion limit; two node orders; all three functions"))
     for n in (1, 2, 3, 4):
         import math
 
@@ -370,6 +451,13 @@ def jobs(tier, seed):
 def replay(v):
     w = v["witness"]
     r = new_result()
+    if w.get("deep"):
+        i = [g[0] for g in deep_graphs()].index(w["deep"]) * 2 + (1 if w.get("reversed") else 0)
+        r = _deep_chunk(None, i, i + 1)
+        for x in r["violations"]:
+            if x["function"] == v["function"]:
+                return x
+        return None
     strict = sorted(w["nodes"]) == list(range(w["n"]))
     run_graph(r, w["n"], w["adj"], tuple(w["nodes"]), strict, labelled=w.get("labelled") or False)
     for x in r["violations"]:
